@@ -44,6 +44,11 @@ Section WithArith.
   Definition adj_of (af : aff) (adj : list (N * Qc)) : Qc :=
     match alookup (af_id af) adj with Some v => v | None => 1 end.
 
+  (* the rows after the sale: [adj] holds, per affiliate, the cumulative
+     pre-to-post factor of the splits passed so far; share counts are DIVIDED
+     by it (since the fix "divide later share counts by the cumulative split
+     factor": dividing by 1.5 is exact where multiplying by a rounded 1/1.5
+     is not) *)
   Fixpoint fwd_scan (last : Z) (dflt : aff -> Qc) (aft : list tx)
            (adj : list (N * Qc)) (s : scan) : res scan :=
     match aft with
@@ -54,7 +59,7 @@ Section WithArith.
         let sa := adj_of af adj in
         match t_act t with
         | Buy sh _ _ _ _ =>
-            b <- gez_mul A sh sa ;;
+            b <- gez_div A sh sa ;;
             eop <- gez_add A (sc_eop s) b ;;
             let old := match alookup (af_id af) (sc_active s) with
                        | Some d => d | None => dflt af end in
@@ -65,7 +70,7 @@ Section WithArith.
                  sc_buyers := add_aff af (sc_buyers s);
                  sc_active := aupdate (af_id af) na (sc_active s) |}
         | Sell sh _ _ _ _ _ =>
-            b <- gez_mul A sh sa ;;
+            b <- gez_div A sh sa ;;
             eop <- a_sub A (sc_eop s) b ;;
             if Qcltb eop 0 then Rej RejAheadAllNegative else
             let old := match alookup (af_id af) (sc_active s) with
@@ -78,7 +83,7 @@ Section WithArith.
                  sc_active := aupdate (af_id af) na (sc_active s) |}
         | Split post pre _ =>
             f <- split_factor A post pre ;;
-            nsa <- pos_div A sa f ;;
+            nsa <- pos_mul A sa f ;;
             fwd_scan last dflt r (aupdate (af_id af) nsa adj) s
         | Roc _ _ | Sfla _ _ => fwd_scan last dflt r adj s
         end
